@@ -5,7 +5,7 @@ from vf.models.refdevs import OK
 
 PROPERTY = "C03"
 LEVEL = "exploration"
-BUDGET = {"quick": 30000, "thorough": 3000000}
+BUDGET = {"quick": 24000, "thorough": 3000000}
 WALL_CAP = {"quick": 150, "thorough": 3000}
 CHUNK = 250
 RULE = ("one case = a generated model program plus a segmentation of its "
